@@ -833,6 +833,8 @@ pub fn rebuilt_siblings_probe(eng: &GameState, mo: &Model, obs: &mut dyn Obs, st
             Ok(x) => x,
             Err(_) => continue,
         };
+        let ma_before_status_none = ma.status == m::Status::None && !ma.captured_this_turn;
+        let mb_before_status_none = mb.status == m::Status::None && !mb.captured_this_turn;
         let (ra, rb) = match (fork_with_history(&ea, &ma, &[]), fork_with_history(&eb, &mb, &[])) {
             (Some(a), Some(b)) => (a.0, b.0),
             _ => continue,
@@ -856,8 +858,35 @@ pub fn rebuilt_siblings_probe(eng: &GameState, mo: &Model, obs: &mut dyn Obs, st
         if ma.apply(x).is_err() || mb.apply(x).is_err() {
             continue;
         }
+        // when both first steps left nothing pending and captured nothing, the two siblings have the very
+        // same play phase: the second sibling built around a *clone of the first one's play phase* (taken
+        // after the first one has been stepped) and its own board is that sibling, too
+        let mut extra: Option<GameState> = None;
+        if ma_before_status_none && mb_before_status_none {
+            let built = guard(|| {
+                use arimaa_engine_step::{Phase, PieceBoard, Zobrist};
+                let _ = ea.take_action(&xa);
+                let phase = ea.unwrap_play_phase().clone();
+                let pbs = eb.piece_board();
+                let pb = PieceBoard::new(pbs.p1_pieces, pbs.elephants, pbs.camels, pbs.horses, pbs.dogs, pbs.cats, pbs.rabbits);
+                let h = Zobrist::from_piece_board(pbs, eb.is_p1_turn_to_move(), eb.current_step());
+                let twin = GameState::new(eb.is_p1_turn_to_move(), eb.move_number(), Phase::PlayPhase(phase), pb, h);
+                if twin.transposition_hash() == eb.transposition_hash() && twin.valid_actions() == eb.valid_actions() {
+                    Some(twin.take_action(&xa))
+                } else {
+                    None
+                }
+            });
+            if let Ok(Some(t)) = built {
+                extra = Some(t);
+            }
+        }
         pairs += 1;
         st.bump("rebuilt_sibling_pairs_advanced_back_to_back");
+        if let Some(t) = extra.as_ref() {
+            st.bump("siblings_built_around_a_clone_of_the_other_play_phase");
+            obs.on_state(&View::new(t, &mb, true), st).map_err(|f| Fail::new(&f.clause, format!("(the state after {} built around a clone of the play phase of its sibling after {} - both steps left nothing pending and captured nothing, so the two play phases are the same - and then advanced by {}) {}", action_text(&aj), action_text(&ai), action_text(&xa), f.detail)))?;
+        }
         for (e, mm, first) in [(&cb, &mb, aj), (&ca, &ma, ai)] {
             obs.on_state(&View::new(e, mm, true), st).map_err(|f| Fail::new(&f.clause, format!("(rebuilt siblings: the states after {} and after {} were both rebuilt through the constructors, then {} was played from each, one right after the other; this is the one below {}) {}", action_text(&ai), action_text(&aj), action_text(&xa), action_text(&first), f.detail)))?;
         }
